@@ -159,6 +159,15 @@ def paths(block: Sequence[ast.stmt], limit: int = 5000) -> List[Tuple[List[Event
                 f3[st.targets[0].id] = v
                 nxt(events + ev + [("stmt", st)], f3, k2)
             return
+        if isinstance(st, (ast.Assign, ast.AugAssign)) and isinstance(st.value, ast.IfExp) and not isinstance(st.value.body, ast.IfExp) and not isinstance(st.value.orelse, ast.IfExp):
+            # `x = a if t else b`: fork on t and continue with the chosen branch as the assigned value
+            import copy as _copy
+
+            for v, ev, k2 in _decide(st.value.test, flags, known):
+                chosen = _copy.copy(st)
+                chosen.value = st.value.body if v else st.value.orelse
+                run([chosen] + list(stmts[i + 1 :]), 0, events + ev, dict(flags), k2, cont)
+            return
         f2 = flags
         if isinstance(st, ast.Assign) and len(st.targets) == 1 and isinstance(st.targets[0], ast.Name):
             f2 = dict(flags)
